@@ -18,9 +18,9 @@ package server
 //   no panic in any server thread, the bystander's replies are unchanged.
 
 import (
-	"strconv"
 	"fmt"
 	"regexp"
+	"strconv"
 	"strings"
 	stdtime "time"
 
@@ -36,6 +36,9 @@ type c16Stream struct {
 	Name string
 	Data []byte
 	HTTP bool // the server closes the connection after the reply
+	// SameAs names a stream carrying the same commands in another framing whose
+	// replies this stream must reproduce byte for byte (one reply per command)
+	SameAs string
 }
 
 func c16Streams(tier string) []c16Stream {
@@ -54,27 +57,37 @@ func c16Streams(tier string) []c16Stream {
 	bigval := strings.Repeat("0123456789", 7000)
 	post := "SET pk post POINT 5 6"
 	return []c16Stream{
-		{"resp-3", resp3, false},
-		{"resp-pipeline", big, false},
-		{"telnet-crlf", []byte("SET pk t POINT 1 2\r\nGET pk t\r\nPING\r\n"), false},
-		{"telnet-lf", []byte("SET pk t POINT 1 2\nGET pk t\nPING\n"), false},
-		{"telnet-quoted", []byte("SET pk q STRING \"hello world\"\r\nGET pk q\r\nSET pk \"q 2\" STRING 'x y'\r\nGET pk \"q 2\"\r\n"), false},
-		{"native", []byte("$18 SET pk n POINT 1 2\r\n$8 GET pk n\r\n$4 PING\r\n"), false},
-		{"http-get", []byte("GET /GET+pk+a HTTP/1.1\r\nHost: x\r\nAccept: */*\r\n\r\n"), true},
-		{"http-post", []byte(fmt.Sprintf("POST / HTTP/1.1\r\nHost: x\r\nContent-Length: %d\r\n\r\n%s", len(post), post)), true},
-		{"http-options-then-get", []byte("OPTIONS /x HTTP/1.1\r\nHost: x\r\nOrigin: y\r\n\r\nGET /PING HTTP/1.1\r\nHost: x\r\n\r\n"), true},
-		{"mixed", append(append(respCmd("PING"), []byte("GET pk a\r\n$4 PING\r\n")...), respCmd("GET", "pk", "a")...), false},
-		{"value-70k", append(append(respCmd("SET", "pk", "big", "STRING", bigval), respCmd("GET", "pk", "big")...), respCmd("PING")...), false},
-		{"starts-with-G", []byte("GET pk a\r\nGET pk a WITHFIELDS\r\n"), false},
-		{"starts-with-P-O", []byte("PING\r\nOUTPUT json\r\nPING\r\nOUTPUT resp\r\nPDEL pk zz*\r\nPERSIST pk a\r\n"), false},
-		{"resp-then-quit", append(respCmd("GET", "pk", "a"), respCmd("QUIT")...), false},
+		{Name: "resp-3", Data: resp3, HTTP: false},
+		{Name: "resp-pipeline", Data: big, HTTP: false},
+		{Name: "telnet-crlf", Data: []byte("SET pk t POINT 1 2\r\nGET pk t\r\nPING\r\n"), HTTP: false},
+		{Name: "telnet-lf", Data: []byte("SET pk t POINT 1 2\nGET pk t\nPING\n"), SameAs: "telnet-crlf"},
+		{Name: "telnet-quoted", Data: []byte("SET pk q STRING \"hello world\"\r\nGET pk q\r\nSET pk \"q 2\" STRING 'x y'\r\nGET pk \"q 2\"\r\n"), HTTP: false},
+		{Name: "native", Data: []byte("$18 SET pk n POINT 1 2\r\n$8 GET pk n\r\n$4 PING\r\n"), HTTP: false},
+		{Name: "http-get", Data: []byte("GET /GET+pk+a HTTP/1.1\r\nHost: x\r\nAccept: */*\r\n\r\n"), HTTP: true},
+		{Name: "http-post", Data: []byte(fmt.Sprintf("POST / HTTP/1.1\r\nHost: x\r\nContent-Length: %d\r\n\r\n%s", len(post), post)), HTTP: true},
+		{Name: "http-options-then-get", Data: []byte("OPTIONS /x HTTP/1.1\r\nHost: x\r\nOrigin: y\r\n\r\nGET /PING HTTP/1.1\r\nHost: x\r\n\r\n"), HTTP: true},
+		{Name: "mixed", Data: append(append(respCmd("PING"), []byte("GET pk a\r\n$4 PING\r\n")...), respCmd("GET", "pk", "a")...), HTTP: false},
+		{Name: "value-70k", Data: append(append(respCmd("SET", "pk", "big", "STRING", bigval), respCmd("GET", "pk", "big")...), respCmd("PING")...), HTTP: false},
+		{Name: "starts-with-G", Data: []byte("GET pk a\r\nGET pk a WITHFIELDS\r\n"), HTTP: false},
+		{Name: "starts-with-P-O", Data: []byte("PING\r\nOUTPUT json\r\nPING\r\nOUTPUT resp\r\nPDEL pk zz*\r\nPERSIST pk a\r\n"), HTTP: false},
+		{Name: "resp-then-quit", Data: append(respCmd("GET", "pk", "a"), respCmd("QUIT")...), HTTP: false},
 		// a valid command followed by a malformed one: the protocol error is reported wherever the cut falls
-		{"resp-then-malformed", append(respCmd("PING"), []byte("*1\r\nX\r\n")...), false},
-		{"telnet-then-unbalanced-quote", []byte("PING\r\nSET pk u STRING \"abc\r\n"), false},
-		{"json-mode-then-malformed", append(append(respCmd("OUTPUT", "json"), respCmd("PING")...), []byte("*2\r\n$4\r\nPING\r\n:1\r\n")...), false},
+		{Name: "resp-then-malformed", Data: append(respCmd("PING"), []byte("*1\r\nX\r\n")...), HTTP: false},
+		{Name: "telnet-then-unbalanced-quote", Data: []byte("PING\r\nSET pk u STRING \"abc\r\n"), HTTP: false},
+		{Name: "json-mode-then-malformed", Data: append(append(respCmd("OUTPUT", "json"), respCmd("PING")...), []byte("*2\r\n$4\r\nPING\r\n:1\r\n")...), HTTP: false},
 		// a command that turns the connection into a stream, followed by further commands
-		{"subscribe-then-commands", append(append(append(respCmd("SUBSCRIBE", "c16a"), respCmd("PING", "hello")...), respCmd("SUBSCRIBE", "c16b")...), respCmd("PING")...), false},
-		{"psubscribe-then-telnet", []byte("PSUBSCRIBE c16*\r\nPING hello\r\nUNSUBSCRIBE nope\r\n"), false},
+		{Name: "subscribe-then-commands", Data: append(append(append(respCmd("SUBSCRIBE", "c16a"), respCmd("PING", "hello")...), respCmd("SUBSCRIBE", "c16b")...), respCmd("PING")...), HTTP: false},
+		{Name: "psubscribe-then-telnet", Data: []byte("PSUBSCRIBE c16*\r\nPING hello\r\nUNSUBSCRIBE nope\r\n"), HTTP: false},
+		// an empty command name / a protocol switch in the middle / LF-only lines that the HTTP sniffer looks at
+		{Name: "empty-name-then-ping", Data: append([]byte("*1\r\n$0\r\n\r\n"), respCmd("PING")...), HTTP: false},
+		{Name: "telnet-empty-name-then-ping", Data: []byte("\"\"\r\nPING\r\n"), HTTP: false},
+		{Name: "ping-then-http", Data: []byte("PING\r\nGET /PING HTTP/1.1\r\n\r\n"), HTTP: false},
+		{Name: "ping-then-invalid-http", Data: []byte("PING\r\nGET / HTTP/1.1\r\n\r\n"), HTTP: false},
+		{Name: "crlf-G-P", Data: []byte("PING\r\nGET pk a\r\nECHO x\r\n")},
+		{Name: "lf-only-G-P", Data: []byte("PING\nGET pk a\nECHO x\n"), SameAs: "crlf-G-P"},
+		// first lines longer than any fixed look-ahead (telnet and HTTP), first letter one the sniffer cares about
+		{Name: "telnet-long-line-P", Data: []byte("PUBLISH c16long " + strings.Repeat("x", 5000) + "\r\nPING\r\n"), HTTP: false},
+		{Name: "http-long-url", Data: []byte("GET /SET+pk+long+STRING+" + strings.Repeat("y", 5000) + " HTTP/1.1\r\nHost: x\r\n\r\n"), HTTP: true},
 	}
 }
 
@@ -112,7 +125,7 @@ func c16Send(x *Exec, addr string, data []byte, cuts []int) string {
 }
 
 func checkC16Cuts(job *Job, res *Result) {
-	res.Rule = "SEQ over inputs x cuts: 19 streams (incl. valid-then-malformed and stream-switching commands followed by further commands) x every 2-way cut (long streams: every cut within 80 bytes of a command / read-buffer boundary plus a stride), every 3-way cut for streams <= 120 bytes (thorough <= 200), byte-at-a-time for streams <= 400 bytes; distinct = distinct (stream, segmentation class)"
+	res.Rule = "SEQ over inputs x cuts: 27 streams (LF-terminated telnet streams must be answered like their CRLF twins) (incl. valid-then-malformed and stream-switching commands followed by further commands) x every 2-way cut (long streams: every cut within 80 bytes of a command / read-buffer boundary plus a stride), every 3-way cut for streams <= 120 bytes (thorough <= 200), byte-at-a-time for streams <= 400 bytes; distinct = distinct (stream, segmentation class)"
 	res.Assumptions = append(res.Assumptions, "each stream is replayed on a fresh connection of one server; its commands are idempotent so the state is the same for every replay", "the elapsed member of JSON replies is blanked")
 	streams := c16Streams(job.Tier)
 	caseNo := 0
@@ -132,6 +145,22 @@ func checkC16Cuts(job *Job, res *Result) {
 			c16Send(x, in.Addr, s.Data, nil)
 			ref := c16Send(x, in.Addr, s.Data, nil)
 			n := len(s.Data)
+			if s.SameAs != "" {
+				for _, o := range streams {
+					if o.Name == s.SameAs {
+						c16Send(x, in.Addr, o.Data, nil)
+						if want := c16Send(x, in.Addr, o.Data, nil); want != ref {
+							res.Violate("C16/framing-changes-replies:"+s.Name, fmt.Sprintf("stream %s %q is answered %s ; the same commands as stream %s %q are answered %s",
+								s.Name, vclip(string(s.Data), 80), vclip(ref, 300), o.Name, vclip(string(o.Data), 80), vclip(want, 300)), map[string]any{"stream": s.Name, "cuts": []int{}})
+						}
+					}
+				}
+			}
+			if refs, ok := res.Extra["reference_replies"].(map[string]any); ok {
+				refs[s.Name] = vclip(ref, 160)
+			} else {
+				res.Extra["reference_replies"] = map[string]any{s.Name: vclip(ref, 160)}
+			}
 			var plans [][]int
 			if n <= 3000 {
 				for i := 1; i < n; i++ {
@@ -399,7 +428,7 @@ func checkC16Bad(job *Job, res *Result) {
 				args := catSubst(shape, sha)
 				var variants [][]string
 				for i := range args {
-					variants = append(variants, append(append([]string{}, args[:i]...), args[i+1:]...))                  // deleted
+					variants = append(variants, append(append([]string{}, args[:i]...), args[i+1:]...))                    // deleted
 					variants = append(variants, append(append(append([]string{}, args[:i+1]...), args[i]), args[i+1:]...)) // duplicated
 					e := append([]string{}, args...)
 					e[i] = ""
